@@ -82,7 +82,7 @@ def doalign_instances(tier, ob, prefix):
                                                                ("add_gap_info_to_path_n", r"for \( a = 0", max(la, lb) + 2), ("update_gaps", r"for \(", la + lb + 3),
                                                                ("make_profile_n", r"while\(i--\)", max(la, lb) + 2), ("set_gap_penalties_n", r"while\(i--\)", max(la, lb) + 3),
                                                                ("init_alnmem", r"i  < g", la + lb + 4), ("mirror_path_n", r"for\(", la + lb + 4), ("aln_runner", r"i <= 4", 6)],
-                        nb=40, ni=1, nf=3, timeout=1200, mem_gb=8,
+                        nb=40, ni=1, nf=3, timeout=1200, mem_gb=4,
                         funcs=["do_align", "make_profile_n", "set_gap_penalties_n", "update_n", "add_gap_info_to_path_n", "mirror_path_n", "make_seq", "update_gaps", "init_alnmem"],
                         cost=(la + lb) * (ga + gb) * 10,
                         bound="node a: %d member(s) / length %d, node b: %d member(s) / length %d, %s task; DP answer = one enumerated valid path; gap vectors, residues and stale output-node state symbolic" % (ga, la, gb, lb, "last" if last else "inner"),
